@@ -17,7 +17,7 @@ from hypothesis import strategies as st
 import xtuml
 
 CORE_TYPES = ['BOOLEAN', 'INTEGER', 'REAL', 'STRING', 'UNIQUE_ID']
-KEY_TYPES = ['UNIQUE_ID', 'INTEGER', 'STRING', 'UNIQUE_ID']
+KEY_TYPES = ['UNIQUE_ID', 'UNIQUE_ID', 'UNIQUE_ID', 'UNIQUE_ID', 'INTEGER', 'INTEGER', 'STRING', 'STRING', 'BOOLEAN', 'REAL']
 
 CLASS_NAMES = ['A', 'B', 'Cx', 'D_d', 'TABLE', 'From', 'M', 'MC', 'Values', 'true', 'Index',
                'E1', 'Rop', 'unique', 'Zz9']
